@@ -1,13 +1,66 @@
-(* C10 MMST (SplitRandomGenerator).  PARTIAL: the random generator pieces (utils.random_walk, merge_graphs) are modelled
-   over explicit draws and tied to the code by correspondence only; solvability is certified PER INSTANCE by a verified
-   checker that the harness runs on every generated instance:
-   instance_ok_b = symmetric loop-free 0/1 adjacency, each block of array_split(arange N, A) induces a connected graph,
-   each agent's K distinct required nodes lie in its own block.  The theorem says what a passing certificate means.
-   Missing for the full statement: "for ALL draws the generated graph passes the certificate" (walk/merge invariants).
+(* C10 MMST (SplitRandomGenerator).
+   The generator is modelled over explicit draws: Model/Mmst.v has the pieces utils.random_walk / correct_graph_offset /
+   merge_graphs (each tied to the code by correspondence on draws recovered from the real key stream), Proofs/Mmst_GenAll.v
+   composes them as utils.multi_random_walk does ([gen_graph]; the per-stage edge-count targets are free parameters).
+   Certificate: instance_ok_b = symmetric loop-free 0/1 adjacency, each block of array_split(arange N, A) induces a connected
+   graph, each agent's K distinct required nodes lie in its own block.
+   PROVED (all sizes, ALL valid draws):  0 < A <= N  and  ceil(N/A) - 2 <= max_degree  =>  the generated instance passes the
+   certificate, hence is solvable block by block ([C10_Mmst_generated_solvable], [C10_Mmst_generated_certificate]).
+   Valid draws ([gen_valid_b]): ranges of randint / choice, distinct pairs (choice without replacement), the cross edge joins
+   the graph built so far to the new block, the spanning loop has exited (every node of the block marked).  No hypothesis on
+   num_edges is needed (connectivity comes from the spanning walk; later stages only append edges); the generator's own
+   assertion K*A <= 0.8 N only makes valid [comps] draws exist.
+   PROVED for ALL valid draws with NO hypothesis on max_degree / num_edges ([C10_Mmst_generated_wf]): node_edges is an N x N
+   table consistent with the adjacency matrix, the instance is well-formed and its reset state satisfies the invariant [Inv]
+   (so the step theorems C04/C05/C06/C11/C12 apply to every generated instance, also to the defective ones below).
+   REFUTED without the hypothesis on max_degree ([C10_Mmst_generated_solvable_refuted], default sizes N=36 A=3 max_degree=5):
+   add_edge refuses an edge when an endpoint already has degree > max_degree; random_walk then still moves to the unmarked
+   node, and the next unmarked neighbour (possibly the node itself: a SELF LOOP) is linked to it and marked: the block is
+   disconnected although every node is marked.  Reproduced on the real code: MMST().reset(PRNGKey(60800)) (about 1 reset in
+   6000 of the default environment).
    The advertised "max_degree" and "num_edges" are REFUTED by the faithful model (off-by-one test in add_edge; the
    order-dependent Cantor code lets (b,a) in after (a,b)). *)
-Require Import JV.Base.Prelude JV.Base.JaxIndex JV.Base.Codec JV.Base.TimeStep JV.Model.Mmst JV.Proofs.Mmst_lib JV.Proofs.Mmst JV.Proofs.Mmst_Episode JV.Proofs.Mmst_Obs JV.Proofs.Mmst_Gen JV.Proofs.Mmst_Examples.
-Theorem C10_Mmst_certificate_solvable_partial A N K adj comps :
+Require Import JV.Base.Prelude JV.Base.JaxIndex JV.Base.Codec JV.Base.TimeStep JV.Model.Mmst JV.Proofs.Mmst_lib JV.Proofs.Mmst JV.Proofs.Mmst_Episode JV.Proofs.Mmst_Obs JV.Proofs.Mmst_Gen JV.Proofs.Mmst_Init JV.Proofs.Mmst_Examples JV.Proofs.Mmst_GenWalk JV.Proofs.Mmst_GenAll JV.Proofs.Mmst_GenBase JV.Proofs.Mmst_InstWf.
+Theorem C10_Mmst_generated_certificate A N maxd :
+  0 < A -> A <= N -> (N + A - 1) / A - 2 <= maxd ->
+  forall K subs ms comps,
+    gen_valid_b A N maxd subs ms = true -> comps_ok_b A N K comps = true ->
+    instance_ok_b A N K (adj_of_edges N (g_edges (gen_graph A N maxd subs ms))) comps = true.
+Proof. exact (gen_instance_ok A N maxd). Qed.
+Print Assumptions C10_Mmst_generated_certificate.
+Theorem C10_Mmst_generated_solvable A N maxd :
+  0 < A -> A <= N -> (N + A - 1) / A - 2 <= maxd ->
+  forall K subs ms comps,
+    gen_valid_b A N maxd subs ms = true -> comps_ok_b A N K comps = true ->
+    let adj := adj_of_edges N (g_edges (gen_graph A N maxd subs ms)) in
+    forall a, 0 <= a < A ->
+      zlen (znth [] comps a) = K /\
+      forall k, In k (znth [] comps a) ->
+        0 <= k < N /\ in_block A N a k = true
+        /\ conn_from (fun i j => gat 0 adj i j =? 1) (in_block A N a) (split_lo A N a) k.
+Proof. exact (gen_solvable A N maxd). Qed.
+Print Assumptions C10_Mmst_generated_solvable.
+Theorem C10_Mmst_generated_solvable_refuted :
+  gen_valid_b 3 36 5 bad_subs bad_ms = true /\
+  let adj := adj_of_edges 36 (g_edges (gen_graph 3 36 5 bad_subs bad_ms)) in
+  blocks_connected_b 3 36 adj = false /\ sym_loopless_b 36 adj = false /\ gat 0 adj 7 7 = 1.
+Proof. exact gen_not_solvable_refuted. Qed.
+Print Assumptions C10_Mmst_generated_solvable_refuted.
+Theorem C10_Mmst_walk_connected maxd n start :
+  0 < n -> n - 2 <= maxd ->
+  forall ne wd ed, 0 <= start < n -> Forall (fun d => 0 <= d < n) wd -> Forall (eok n) ed ->
+  all_true (snd (fst (walk maxd wd (jset (repeat false (Z.to_nat n)) start true) (init_graph n) start))) = true ->
+  let g := random_walk n ne maxd start wd ed in
+  (forall e, In e (g_edges g) -> eok n e) /\
+  (forall u v, 0 <= u < n -> 0 <= v < n -> conn_from (adjE (g_edges g)) (inb n) u v).
+Proof. exact (random_walk_connected maxd n start). Qed.
+Theorem C10_Mmst_walk_disconnected_refuted :
+  exists n maxd d, sub_valid_b maxd n d = true /\
+    let g := random_walk n (sd_ne d) maxd (sd_start d) (sd_w d) (sd_e d) in
+    zlen (g_edges g) = sd_ne d /\ In (7, 7) (g_edges g) /\
+    connected_b n (fun i j => gat 0 (adj_of_edges n (g_edges g)) i j =? 1) (inb n) 0 = false.
+Proof. exact walk_disconnected_refuted. Qed.
+Theorem C10_Mmst_certificate_solvable A N K adj comps :
   0 < A -> 0 <= N -> instance_ok_b A N K adj comps = true ->
   forall a, 0 <= a < A ->
     zlen (znth [] comps a) = K /\
@@ -15,13 +68,39 @@ Theorem C10_Mmst_certificate_solvable_partial A N K adj comps :
       0 <= k < N /\ in_block A N a k = true
       /\ conn_from (fun i j => gat 0 adj i j =? 1) (in_block A N a) (split_lo A N a) k.
 Proof. exact (instance_solvable A N K adj comps). Qed.
-Print Assumptions C10_Mmst_certificate_solvable_partial.
+Print Assumptions C10_Mmst_certificate_solvable.
+Theorem C10_Mmst_certificate_complete N adj vis st :
+  (forall v, vis v = true -> 0 <= v < N) -> vis st = true ->
+  (forall v, vis v = true -> conn_from adj vis st v) -> connected_b N adj vis st = true.
+Proof. intro H. exact (connected_b_complete N adj vis H st). Qed.
 Theorem C10_Mmst_blocks_disjoint A N a b v : 0 < A -> 0 <= N -> 0 <= a -> 0 <= b ->
   in_block A N a v = true -> in_block A N b v = true -> a = b.
 Proof. exact (blocks_disjoint A N a b v). Qed.
 Theorem C10_Mmst_symmetric N adj : sym_loopless_b N adj = true ->
   forall i j, 0 <= i < N -> 0 <= j < N -> gat 0 adj i i = 0 /\ gat 0 adj i j = gat 0 adj j i /\ (gat 0 adj i j = 0 \/ gat 0 adj i j = 1).
 Proof. exact (sym_loopless_sound N adj). Qed.
+(* the boolean checks the harness runs on every generated instance imply the hypothesis of the reset invariant *)
+Theorem C10_Mmst_checks_wf c base adj comps :
+  0 < cA c -> 0 < cN c -> 0 < cK c ->
+  grid_shape_b (cN c) base = true -> base_consistent_b (cN c) adj base = true ->
+  comps_ok_b (cA c) (cN c) (cK c) comps = true ->
+  instance_wf c base adj comps.
+Proof. exact (instance_checks_wf c base adj comps). Qed.
+Theorem C10_Mmst_reset_shape_wf c base adj comps :
+  0 < cA c -> 0 < cN c -> 0 < cK c ->
+  shape_ok_b c (fst (init c base adj comps)) = true -> base_consistent_b (cN c) adj base = true ->
+  instance_wf c base adj comps.
+Proof. exact (reset_shape_wf c base adj comps). Qed.
+Print Assumptions C10_Mmst_reset_shape_wf.
+Theorem C10_Mmst_generated_wf c maxd subs ms comps :
+  0 < cA c -> cA c <= cN c -> 0 < cK c ->
+  gen_valid_b (cA c) (cN c) maxd subs ms = true -> comps_ok_b (cA c) (cN c) (cK c) comps = true ->
+  let g := gen_graph (cA c) (cN c) maxd subs ms in
+  let adj := adj_of_edges (cN c) (g_edges g) in
+  instance_wf c (g_ne g) adj comps /\
+  Inv c (fun a => jget 0 (znth [] comps a) 0) (fst (init c (g_ne g) adj comps)).
+Proof. exact (gen_reset_Inv c maxd subs ms comps). Qed.
+Print Assumptions C10_Mmst_generated_wf.
 Theorem C10_Mmst_max_degree_refuted :
   exists n ne maxd start wd ed, let g := random_walk n ne maxd start wd ed in
     maxd < max_degree_of n (adj_of_edges n (g_edges g)).
@@ -31,5 +110,10 @@ Theorem C10_Mmst_num_edges_refuted :
     zlen (g_edges g) = ne /\ num_edges_of n (adj_of_edges n (g_edges g)) < ne.
 Proof. exact num_edges_refuted. Qed.
 Print Assumptions C10_Mmst_num_edges_refuted.
-Example C10_Mmst_nonvacuous : instance_ok_b 2 6 2 ex_adj ex_comps = true.
-Proof. exact ex_instance_ok. Qed.
+Example C10_Mmst_nonvacuous : instance_ok_b 2 6 2 ex_adj ex_comps = true /\ instance_wf ex_cfg ex_base ex_adj ex_comps.
+Proof. exact (conj ex_instance_ok ex_instance_wf). Qed.
+(* valid draws for N = 6, A = 2, max_degree = 1 = ceil(6/2) - 2: two paths joined by the cross edge 2-3 *)
+Example C10_Mmst_generated_nonvacuous :
+  gen_valid_b 2 6 1 ex_subs ex_ms = true /\ comps_ok_b 2 6 2 ex_comps = true /\
+  adj_of_edges 6 (g_edges (gen_graph 2 6 1 ex_subs ex_ms)) = ex_adj.
+Proof. exact ex_gen_valid. Qed.
